@@ -262,7 +262,7 @@ Qed.
 Lemma split_files_concat maxe items : forall cur ck cnt,
   concat (split_files maxe cur ck cnt items) = rev cur ++ items.
 Proof.
-  induction items as [|[k b] r IH]; intros cur ck cnt; cbn [split_files].
+  induction items as [|[k b] r IH]; intros cur ck cnt; cbn [split_files]; rewrite <- ?rev_alt.
   - destruct cur; cbn [concat]; [reflexivity|]. rewrite !app_nil_r. reflexivity.
   - destruct (maxe <=? _)%N.
     + cbn [concat]. rewrite IH. cbn [rev app]. rewrite <- app_assoc. reflexivity.
@@ -272,7 +272,7 @@ Qed.
 Lemma split_files_nonempty maxe items : forall cur ck cnt seg,
   In seg (split_files maxe cur ck cnt items) -> seg <> [].
 Proof.
-  induction items as [|[k b] r IH]; intros cur ck cnt seg H; cbn [split_files] in H.
+  induction items as [|[k b] r IH]; intros cur ck cnt seg H; cbn [split_files] in H; rewrite <- ?rev_alt in H.
   - destruct cur as [|c0 cur']; [destruct H|]. destruct H as [<-|[]].
     cbn [rev]. intros E. apply app_eq_nil in E. destruct E as [_ E]. discriminate.
   - destruct (maxe <=? _)%N.
